@@ -90,6 +90,23 @@ def sym_feed():
     return SymFeed()
 
 
+SINK = 995
+
+
+def sym_sink():
+    from forml import io
+    from forml.pipeline import wrap
+    from harness import symbolic
+
+    class SymSink(io.Sink):
+        """Sink closing the composition with a stateless symbolic mapper (as a configured platform always has one)."""
+
+        def save(self, schema):
+            return wrap.Operator.mapper(symbolic.Stateless)(str(SINK))
+
+    return SymSink()
+
+
 def rec_runner(out):
     from forml import flow, runtime
     from harness import graphs, refinterp
@@ -115,20 +132,48 @@ def fresh_directory(registry_root):
     return asset.Directory(posix.Registry(registry_root))
 
 
+def racing_directory(registry_root):
+    """Registry whose first state read is overtaken by a complete training run of another process."""
+    import subprocess
+    import tempfile
+    from forml.io import asset
+    from forml.provider.registry.filesystem import posix
+    fresh_directory(registry_root)
+
+    class Racing(posix.Registry):
+        fired = False
+
+        def read(self, project, release, generation, sid):
+            if not Racing.fired:
+                Racing.fired = True
+                work = tempfile.mkdtemp(prefix='race-')
+                spec = {'registry': registry_root, 'op': 'train', 'g': 0, 'cwd': work, 'out': os.path.join(work, 'obs.json')}
+                json.dump(spec, open(os.path.join(work, 'spec.json'), 'w'))
+                subprocess.run([sys.executable, '-W', 'ignore', '-m', 'harness.lifecycle', os.path.join(work, 'spec.json')],
+                               env=dict(os.environ, FORML_HOME=work), capture_output=True, timeout=300, check=False)
+            return super().read(project, release, generation, sid)
+
+    return asset.Directory(Racing(registry_root))
+
+
 def step(registry_root, op, generation):
     """One lifecycle action with everything rebuilt (instance, project components, expansion). Returns observation."""
     from forml.io import asset
     from forml.provider.runner import pyfunc
     from harness import graphs
     graphs.reset_ports()
-    directory = fresh_directory(registry_root)
+    race = op.endswith('-race')
+    op = op.replace('-race', '')
+    directory = racing_directory(registry_root) if race else fresh_directory(registry_root)
     instance = asset.Instance(project=PROJECT, release=RELEASE, generation=generation or None, registry=directory)
     values = []
     feed = sym_feed()
+    sink = sym_sink()
     if op == 'serve':
-        values.append(graphs.norm(pyfunc.Runner(instance, feed, None).call(None)))
+        answer = graphs.norm(pyfunc.Runner(instance, feed, sink).call(None))
+        values.append(answer['args'][1] if answer['tag'] == 'app' and answer['id'] == SINK else answer)
     else:
-        runner = rec_runner(values)(instance, feed, None)
+        runner = rec_runner(values)(instance, feed, sink)
         getattr(runner, {'train': 'train', 'apply': 'apply', 'perftrack': 'eval_perftrack'}[op])()
     obs = {'values': values}
     if op == 'train':
